@@ -1042,6 +1042,15 @@ func (e *CEnv) callExpr(x *CExpr) (Val, error) {
 		name, sort := c.elemHeap(tStr)
 		h := c.heapGet(e.st, name, sort)
 		return Val{T: tStr, Term: app("str_join", sel(h, app("sl_base", as[0].Term)), app("sl_off", as[0].Term), app("sl_len", as[0].Term), as[1].Term)}, nil
+	case "local":
+		// local(x): the caller's local variable x, even when a bound name (a callee parameter in a callsite clause) hides it
+		if len(x.Args) != 1 || x.Args[0].Op != "ident" || e.fr == nil {
+			return Val{}, fmt.Errorf("local(name)")
+		}
+		if v, ok := e.localVar(x.Args[0].Name); ok {
+			return v, nil
+		}
+		return Val{}, fmt.Errorf("no local variable %s", x.Args[0].Name)
 	case "param":
 		// param(x): the parameter x (its entry value), even when a local variable of the same name shadows it
 		n := e.sub()
@@ -1269,15 +1278,16 @@ func (e *CEnv) callExpr(x *CExpr) (Val, error) {
 		return Val{T: cht.Elem(), Term: sel(g, as[0].Term)}, nil
 	case "calls":
 		// calls(Name): how many calls named Name this function has executed so far
-		if len(x.Args) != 1 || x.Args[0].Op != "ident" {
-			return Val{}, fmt.Errorf("calls(Name)")
+		nm, okn := callsArgName(x)
+		if !okn {
+			return Val{}, fmt.Errorf("calls(Name) or calls(recv.Name)")
 		}
 		c.ghostSorts["calls"] = "(Array Int Int)"
 		g, ok := e.st.ghost["calls"]
 		if !ok {
 			g = c.ghostInit("calls")
 		}
-		return Val{T: tInt, Term: sel(g, fmt.Sprint(callNameID(x.Args[0].Name)))}, nil
+		return Val{T: tInt, Term: sel(g, fmt.Sprint(callNameID(nm)))}, nil
 	case "sent", "received":
 		as, err := evalArgs()
 		if err != nil {
@@ -1455,7 +1465,44 @@ func (e *CEnv) modSet(ct *Contract) (*ModSet, error) {
 			}
 		}
 	}
+	// ghost counters that a postcondition talks about are (implicitly) modified: the callee's count is added to
+	// the caller's, so the caller's old value must be forgotten before the postcondition is assumed
+	for _, cl := range ct.clauses("ensures") {
+		ghostMentions(cl.Expr, false, func(name string, arg *CExpr) {
+			switch name {
+			case "calls":
+				if nm, okn := callsArgName(&CExpr{Op: "call", Name: "calls", Args: []*CExpr{arg}}); okn {
+					id := callNameID(nm)
+					for _, x := range ms.callNames {
+						if x == id {
+							return
+						}
+					}
+					ms.callNames = append(ms.callNames, id)
+				}
+			case "sent", "received":
+				e.c.ghostSorts[name] = "(Array Int Int)"
+				ms.ghost[name] = true
+			}
+		})
+	}
 	return ms, nil
+}
+
+// ghostMentions calls f for every calls(X) / sent(ch) / received(ch) outside old().
+func ghostMentions(x *CExpr, inOld bool, f func(name string, arg *CExpr)) {
+	if x == nil {
+		return
+	}
+	if x.Op == "old" {
+		return
+	}
+	if x.Op == "call" && (x.Name == "calls" || x.Name == "sent" || x.Name == "received") && len(x.Args) == 1 {
+		f(x.Name, x.Args[0])
+	}
+	for _, a := range x.Args {
+		ghostMentions(a, inOld, f)
+	}
 }
 
 func (e *CEnv) addLoc(ms *ModSet, loc *CExpr) error {
@@ -1479,10 +1526,11 @@ func (e *CEnv) addLoc(ms *ModSet, loc *CExpr) error {
 		return nil
 	}
 	if loc.Op == "call" && loc.Name == "calls" {
-		if len(loc.Args) != 1 || loc.Args[0].Op != "ident" {
-			return fmt.Errorf("calls(Name)")
+		nm, okn := callsArgName(loc)
+		if !okn {
+			return fmt.Errorf("calls(Name) or calls(recv.Name)")
 		}
-		ms.callNames = append(ms.callNames, callNameID(loc.Args[0].Name))
+		ms.callNames = append(ms.callNames, callNameID(nm))
 		return nil
 	}
 	if loc.Op == "call" && loc.Name == "allMapsLike" {
@@ -1656,4 +1704,19 @@ func (e *CEnv) addLoc(ms *ModSet, loc *CExpr) error {
 		return fmt.Errorf("[*] needs a slice or map")
 	}
 	return fmt.Errorf("unsupported location form")
+}
+
+// callsArgName: the counter name in calls(Name) / calls(recv.Name).
+func callsArgName(x *CExpr) (string, bool) {
+	if len(x.Args) != 1 || x.Args[0] == nil {
+		return "", false
+	}
+	a := x.Args[0]
+	switch {
+	case a.Op == "ident":
+		return a.Name, true
+	case a.Op == "field" && len(a.Args) == 1 && a.Args[0].Op == "ident":
+		return a.Args[0].Name + "." + a.Name, true
+	}
+	return "", false
 }
